@@ -107,9 +107,9 @@ func c20Run(w0 *kernel.Worker, j *c20Job, rep *kernel.Report) (*Fail, error) {
 	}
 	// model
 	var outcomes []bool
-	sent := 0           // notifications the model expects at least
-	sentMax := 0        // and at most
-	lastSentAgo := 1e9  // minutes since the last notification (model clock)
+	sent := 0          // notifications the model expects at least
+	sentMax := 0       // and at most
+	lastSentAgo := 1e9 // minutes since the last notification (model clock)
 	lastNotified := "" // Firing | Normal | ""
 	evals := 0
 	ctx := func(i int) string {
